@@ -68,7 +68,7 @@ def rejections(model, scope):
     return out
 
 
-def check(ctx, report, rule, scope, only=None, title=None):
+def check(ctx, report, rule, scope, only=None, title=None, skip=None):
     path = os.path.join(os.path.dirname(os.path.abspath(__file__)), 'specs', 'rejections.json')
     with open(path) as fh:
         table = json.load(fh)['rejections'].get(scope, {})
@@ -77,6 +77,9 @@ def check(ctx, report, rule, scope, only=None, title=None):
     n = 0
     for construct, items in sorted(found.items()):
         if only is not None and not construct.startswith(only):
+            continue
+        if skip is not None and skip(construct):
+            n += len(items)
             continue
         allowed = list(table.get(construct, []))
         for key, node in items:
